@@ -27,10 +27,23 @@ import (
 )
 
 const (
-	repoDir  = "/repo"
-	verifDir = "/verif"
-	goBin    = "go1.26.8"
+	repoDir = "/repo"
+	goBin   = "go1.26.8"
 )
+
+// verifDir is the root of the verification tree: the parent of the directory holding this binary
+// (so that a snapshot of /verif elsewhere works on its own files), or $VERIF_DIR.
+var verifDir = func() string {
+	if d := os.Getenv("VERIF_DIR"); d != "" {
+		return d
+	}
+	if exe, err := os.Executable(); err == nil {
+		if real, err := filepath.EvalSymlinks(exe); err == nil {
+			return filepath.Dir(filepath.Dir(real))
+		}
+	}
+	return "/verif"
+}()
 
 type propCfg struct {
 	Profile       string
